@@ -386,10 +386,16 @@ func c11Judge(c *vc.Ctx, cr *childRun, names []RegisteredCmd) string {
 			map[string]interface{}{"child": cr.conf, "note": "replay: the whole command log of the child (re-run with the same seed)"})
 	case rs.died():
 		culprit := culpritFromStderr(rs.stderrPath())
+		sig := "restart-poisoned/" + culprit
 		if culprit == "" {
-			culprit = "unknown"
+			// not in a command handler: classified by the call site, like a death of the first life
+			if site := crashSite(rs.stderrPath()); site != "" {
+				sig = "process-died/" + site
+			} else {
+				sig = "restart-poisoned/unknown"
+			}
 		}
-		c.Violation("restart-poisoned/"+culprit, fmt.Sprintf("the server ran %d hostile commands and stayed up, but its restart on the same data directory dies: %s", cr.result.Counters["commands"], firstPanicLine(rs.stderrPath())),
+		c.Violation(sig, fmt.Sprintf("the server ran %d hostile commands and stayed up, but its restart on the same data directory dies: %s", cr.result.Counters["commands"], firstPanicLine(rs.stderrPath())),
 			map[string]interface{}{"child": cr.conf, "stderr_panic": panicBlock(rs.stderrPath(), 70), "note": "replay: the whole command log of the child (not kept in the witness: re-run with the same seed)"})
 	case rs.result != nil && rs.result.Counters["canary_probes_ok"] >= 1:
 		c.Ev.Count("restart_canary_ok", 1)
